@@ -10,7 +10,7 @@ from ..symmetry import atom_symmetry
 from .c02 import BLANK
 
 
-BINDER_POS = {'sumn': 1, 'exists_n': 0, 'forall_n': 0, 'loopval': 0}
+BINDER_POS = {'sumn': 1, 'exists_n': 0, 'forall_n': 0, 'loopval': 0, 'countif': 1}
 
 
 def walk(e, f):
@@ -54,6 +54,13 @@ def check(tree, rep, tier='quick', seed=0):
         def visit(e, bad=bad):
             if e.op == 'idx':
                 bad.append('the loop index is used as a value')
+            if e.op in ('sumn', 'countif') or (e.op in ('exists_n', 'forall_n') and isinstance(e.args[0], E)):
+                ix = e.args[1] if e.op in ('sumn', 'countif') else e.args[0]
+                cnt = ix.args[1] if isinstance(ix, E) and ix.op == 'idx' else None
+                if not (isinstance(cnt, E) and cnt.op == 'i' and cnt.ty == 'int'):
+                    bad.append(f'copies are enumerated up to a computed bound ({cnt!r}) instead of the declared count: which copies are visited depends on their numbering')
+            if e.op == 'countif':
+                pass
             if e.op in ('i', 'v') and isinstance(e.args[0], str) and '{' in e.args[0]:
                 key = e.args[0]
                 fpart, _, npart = key.partition('.')
